@@ -584,8 +584,8 @@ def history(ctx, shard):
             break
     ctx.extra[f'history_{fam}' + (f'_part{first}' if first is not None else '')] = {'factories': names, 'alphabet': len(alphabet), 'sequences': total,
                                    'max_length': maxlen, 'stopped_after_poisoning': poisoned_by}
-    if first is None and not poisoned_by:
-        ctx.extra['exhaustive'] = True
+    ctx.extra['exhaustive_subspace'] = ('oracle B only: all call/mutate histories up to the stated max_length per '
+                                        'family (see history_* entries); oracle A is sampled')
 
 
 # ================================================================ pytest ===
